@@ -118,14 +118,15 @@ def compile_ready(it):
     return True
 
 
-def crate_attr(kind='path'):
-    return Attr('dw', metas_body([MNameValue('crate', kind, P('dw'))]))
+def crate_attr(kind='path', trailing=False):
+    return Attr('dw', metas_body([MNameValue('crate', kind, P('dw'))], trailing=trailing))
 
 
 def decorate(rng, it):
     """Insert the (required) `crate = dw` option at a random position; sometimes damage stage 1."""
     it = copy.deepcopy(it)
-    it.attrs.insert(rng.randrange(len(it.attrs) + 1), crate_attr(rng.choice(['path', 'path', 'str'])))
+    # sometimes `#[derive_where(crate = dw,)]`: a trailing comma after the only option
+    it.attrs.insert(rng.randrange(len(it.attrs) + 1), crate_attr(rng.choice(['path', 'path', 'str']), trailing=rng.random() < 0.25))
     r = rng.random()
     if r < 0.06:
         it.attrs.insert(rng.randrange(len(it.attrs) + 1), crate_attr())                      # duplicate crate option
